@@ -72,6 +72,7 @@ class Sim:
             random.Random(listdir_seed) if listdir_seed is not None else None)
         self.n_mut = 0              # mutating calls seen before commit phase
         self.mut_log = []           # (idx, kind, relpath) pre-commit
+        self.moves = []             # (idx, source relpath) of renames
         self.phase = 'idle'         # idle|build|commit|rollback|exit|clean
         self.io_counts = {}
         self.log_io = log_io
@@ -80,6 +81,12 @@ class Sim:
 
     def probe(self, name):
         self.probes[name] = self.probes.get(name, 0) + 1
+
+    def note_move(self, src):
+        """Source of a rename / replace about to be attempted, with the
+        index the call will get among the mutating calls (if it is one)."""
+        self.moves.append((self.n_mut, self.sandbox.rel(src)
+                           if self.sandbox else src))
 
     # -- called by every proxy I/O function ----------------------------
     def io(self, kind, path=None):
@@ -153,10 +160,12 @@ class OsProxy:
         return _os.makedirs(p, *a, **k)
 
     def rename(self, a, b, **k):
+        self._sim.note_move(a)
         self._sim.io('rename', a)
         return _os.rename(a, b, **k)
 
     def replace(self, a, b, **k):
+        self._sim.note_move(a)
         self._sim.io('replace', b)
         return _os.replace(a, b, **k)
 
